@@ -213,7 +213,7 @@ void vrt_op(const char *entry, const char *fmt, long a, long b, long c, long d)
     o->entry = entry; o->fmt = fmt;
     o->a[0] = a; o->a[1] = b; o->a[2] = c; o->a[3] = d;
     S->entry = entry;
-    S->nops++;
+    __atomic_store_n(&S->nops, S->nops + 1, __ATOMIC_RELAXED);     /* read by hang_tick, which may run on any thread */
     if (vrt_verbose) {
         char buf[256];
         fmt_op(buf, sizeof(buf), o);
@@ -221,7 +221,7 @@ void vrt_op(const char *entry, const char *fmt, long a, long b, long c, long d)
     }
 }
 void vrt_state(const char *cls) { S->state = cls; }
-void vrt_trace_reset(void) { S->nops = 0; S->entry = NULL; S->state = NULL; }
+void vrt_trace_reset(void) { __atomic_store_n(&S->nops, 0, __ATOMIC_RELAXED); S->entry = NULL; S->state = NULL; }
 void vrt_case_note(const char *fmt, ...)
 {
     va_list ap;
@@ -742,10 +742,10 @@ unsigned vrt_case_tick(void) { return ++case_tick; }
 
 static void run_one(uint64_t idx)
 {
-    S->cur_case = (int64_t)idx;
+    __atomic_store_n(&S->cur_case, (int64_t)idx, __ATOMIC_RELAXED);
     case_tick = 0;
     fparmed = 0;           /* a case abandoned inside VRT_NOMEM must not leave the failpoints armed */
-    S->nops = 0;
+    __atomic_store_n(&S->nops, 0, __ATOMIC_RELAXED);
     S->entry = NULL;
     S->state = NULL;
     S->note[0] = 0;
@@ -761,7 +761,7 @@ static void run_one(uint64_t idx)
         vrt_lib_forget_all();
     }
     in_case = 0;
-    S->cur_case = -1;
+    __atomic_store_n(&S->cur_case, -1, __ATOMIC_RELAXED);
 }
 
 /* CPU-time hang detector: a worker that burns 120 s of its own CPU time without starting a new
@@ -770,12 +770,19 @@ static void run_one(uint64_t idx)
  * clock); the supervisor turns exit status 88 into a violation keyed by the entry point. */
 static volatile uint64_t hang_last_nops;
 static volatile int hang_ticks;
+/* The handler of a process-directed SIGVTALRM runs on whichever thread the kernel picks (the real-thread harnesses have
+ * several): everything it shares with the main thread is accessed with relaxed atomics, so that the monitor is not itself
+ * a data race under ThreadSanitizer (it was: thorough C06 runs on a loaded machine, DESIGN 10.3). */
 static void hang_tick(int sig)
 {
+    uint64_t n;
     (void)sig;
-    if (S == NULL || S->cur_case < 0) { hang_ticks = 0; return; }
-    if (S->nops != hang_last_nops) { hang_last_nops = S->nops; hang_ticks = 0; return; }
-    if (++hang_ticks >= 24) _exit(88);
+    if (S == NULL || __atomic_load_n(&S->cur_case, __ATOMIC_RELAXED) < 0) { __atomic_store_n(&hang_ticks, 0, __ATOMIC_RELAXED); return; }
+    n = __atomic_load_n(&S->nops, __ATOMIC_RELAXED);
+    if (n != __atomic_load_n(&hang_last_nops, __ATOMIC_RELAXED)) {
+        __atomic_store_n(&hang_last_nops, n, __ATOMIC_RELAXED); __atomic_store_n(&hang_ticks, 0, __ATOMIC_RELAXED); return;
+    }
+    if (__atomic_add_fetch(&hang_ticks, 1, __ATOMIC_RELAXED) >= 24) _exit(88);
 }
 static void hang_detector_start(void)
 {
@@ -787,6 +794,10 @@ static void hang_detector_start(void)
     sa.sa_flags = SA_RESTART;
     sigaction(SIGVTALRM, &sa, NULL);
     it.it_interval.tv_sec = 5; it.it_interval.tv_usec = 0;
+    if (getenv("VERIF_HANG_TICK_US") != NULL) {        /* testing the detector itself: a much shorter period */
+        const long us = atol(getenv("VERIF_HANG_TICK_US"));
+        if (us > 0) { it.it_interval.tv_sec = us / 1000000; it.it_interval.tv_usec = us % 1000000; }
+    }
     it.it_value = it.it_interval;
     setitimer(ITIMER_VIRTUAL, &it, NULL);
 }
